@@ -214,6 +214,9 @@ theorem repeat_at_most_one (k k' : KState) (code : Nat) (h : handleRepeat k code
     k'.out = k.out ∨ ∃ kc, k'.out = k.out ++ [.down kc] := by
   unfold handleRepeat at h
   split at h
+  · -- [seq] hidden sequence mode: the repeat is dropped
+    injection h with h; subst h; exact Or.inl rfl
+  split at h
   · cases h
   · rename_i cur ost _
     simp only [] at h
@@ -230,12 +233,22 @@ theorem repeat_at_most_one (k k' : KState) (code : Nat) (h : handleRepeat k code
         · exact Or.inr ⟨kc, h1⟩
       · exact Or.inl rfl
 
+theorem mem_repeatOrder (outs : List Nat) (x : Nat) : x ∈ repeatOrder outs ↔ x ∈ outs := by
+  unfold repeatOrder
+  simp only [List.mem_append, List.mem_filter, List.mem_reverse]
+  constructor
+  · rintro (⟨h, _⟩ | ⟨h, _⟩) <;> exact h
+  · intro h
+    cases hm : Override.isMod x
+    · exact Or.inl ⟨h, by simp⟩
+    · exact Or.inr ⟨h, rfl⟩
+
 theorem repeatCandidate_active (k : KState) (cur : List KeyCode) (outs : List Nat) (kc : Nat)
     (h : repeatCandidate k cur outs = some kc) : isActive k cur kc = true ∧ kc ∈ outs := by
   unfold repeatCandidate at h
   have h1 := List.find?_some h
   have h2 := List.mem_of_find?_eq_some h
-  exact ⟨h1, List.mem_reverse.mp h2⟩
+  exact ⟨h1, (mem_repeatOrder outs kc).mp h2⟩
 
 theorem scanLayers_active (k : KState) (cur : List KeyCode) (code : Nat) : ∀ (order : List Nat) (kc : Nat),
     scanLayers k cur code order = some kc → isActive k cur kc = true := by
@@ -274,23 +287,82 @@ theorem repeat_only_active (k : KState) (cur : List KeyCode) (order : List Nat) 
         injection h with h; subst h; exact ha
       · cases h
 
-/-- **repeat_prefers_last_listed** (full): among the outputs listed for the key, the last-listed one
-that is active is chosen (so `S-b` repeats `b`, not shift). -/
+/-- the state in which `(tap-hold 200 200 a S-a)` has resolved to its hold action: `lsft` and `a` are
+down -/
+def relistWitness : KState :=
+  { layout := { cfg := { layers := [[]], srcKeys := [] },
+                states := [.normalKey 42 (0, 30) 0, .normalKey 30 (0, 30) 0] },
+    customs := [], keyOutputs := [[(30, [30, 42])]],
+    mods := { codes := [42, 54, 56, 100, 29, 97, 125, 126], lsft := 42, rsft := 54 },
+    prevKeys := [42, 30] }
+
+/-- **repeat_prefers_last_listed** (full, after fix PENDING-1): among the outputs listed for the key,
+the last-listed non-modifier key that is active is chosen - whatever modifiers are listed, before or
+after it (so `S-b` repeats `b`, not shift, also when `b` alone was listed earlier, as in
+`(tap-hold 200 200 b S-b)` whose entry is `[b, lsft]`). -/
 theorem repeat_prefers_last_listed (k : KState) (cur : List KeyCode) (pre : List Nat) (x : Nat) (post : List Nat)
-    (hx : isActive k cur x = true) (hpost : ∀ y ∈ post, isActive k cur y = false) :
+    (hxm : Override.isMod x = false) (hx : isActive k cur x = true)
+    (hpost : ∀ y ∈ post, Override.isMod y = false → isActive k cur y = false) :
     repeatCandidate k cur (pre ++ x :: post) = some x := by
-  unfold repeatCandidate
-  simp only [List.reverse_append, List.reverse_cons, List.append_assoc, List.singleton_append]
-  rw [List.find?_append]
-  have hnone : post.reverse.find? (fun kc => cur.contains kc || k.unshiftedKeys.contains kc || k.unmoddedKeys.contains kc) = none := by
+  unfold repeatCandidate repeatOrder
+  have hsplit : (pre ++ x :: post).reverse.filter (fun kc => !Override.isMod kc) =
+      post.reverse.filter (fun kc => !Override.isMod kc) ++ x :: pre.reverse.filter (fun kc => !Override.isMod kc) := by
+    simp only [List.reverse_append, List.reverse_cons, List.append_assoc, List.singleton_append,
+      List.filter_append]
+    rw [List.filter_cons_of_pos (by rw [hxm]; rfl)]
+  rw [hsplit, List.append_assoc, List.find?_append]
+  have hnone : (post.reverse.filter (fun kc => !Override.isMod kc)).find?
+      (fun kc => cur.contains kc || k.unshiftedKeys.contains kc || k.unmoddedKeys.contains kc) = none := by
     rw [List.find?_eq_none]
     intro y hy
-    have := hpost y (List.mem_reverse.mp hy)
+    obtain ⟨hy1, hy2⟩ := List.mem_filter.mp hy
+    have hym : Override.isMod y = false := by
+      cases hm : Override.isMod y
+      · rfl
+      · rw [hm] at hy2; cases hy2
+    have := hpost y (List.mem_reverse.mp hy1) hym
     simpa [isActive] using this
   rw [hnone]
-  simp only [Option.none_or, List.find?_cons]
+  simp only [Option.none_or, List.cons_append, List.find?_cons]
   have : (cur.contains x || k.unshiftedKeys.contains x || k.unmoddedKeys.contains x) = true := hx
   rw [this]
+
+/-- **repeat_modifier_only_without_key** (full): a repeat is forwarded as a repeat of a modifier only when
+none of the non-modifier outputs listed for the key is active ("preferring the last-listed key of a
+chord over its modifiers", for every way the entry came about). -/
+theorem repeat_modifier_only_without_key (k : KState) (cur : List KeyCode) (outs : List Nat) (m : Nat)
+    (h : repeatCandidate k cur outs = some m) (hm : Override.isMod m = true) :
+    ∀ y ∈ outs, Override.isMod y = false → isActive k cur y = false := by
+  intro y hy hym
+  unfold repeatCandidate repeatOrder at h
+  rw [List.find?_append] at h
+  cases hA : (outs.reverse.filter (fun kc => !Override.isMod kc)).find?
+      (fun kc => cur.contains kc || k.unshiftedKeys.contains kc || k.unmoddedKeys.contains kc) with
+  | some a =>
+    rw [hA] at h
+    simp only [Option.some_or] at h
+    injection h with h
+    subst h
+    have := (List.mem_filter.mp (List.mem_of_find?_eq_some hA)).2
+    rw [hm] at this; cases this
+  | none =>
+    rw [List.find?_eq_none] at hA
+    have hmem : y ∈ outs.reverse.filter (fun kc => !Override.isMod kc) :=
+      List.mem_filter.mpr ⟨List.mem_reverse.mpr hy, by rw [hym]; rfl⟩
+    have := hA y hmem
+    simpa [isActive] using this
+
+example : repeatCandidate relistWitness [42, 30] [30, 42] = some 30 := by decide
+
+/-- **relisted_key_behind_modifier_counterexample** (the scan before fix PENDING-1, plain reverse order):
+the entry of `(tap-hold 200 200 a S-a)` is `[a, lsft]` - an output is listed once, at its first
+listing - so with `S-a` held the reverse scan found `lsft` first and the OS repeat was forwarded as a
+repeat of shift. Reproduced on the real code (corpus/C14.txt). -/
+theorem relisted_key_behind_modifier_counterexample :
+    keyOutputs [] 30 (.holdTap 200 (.multipleKeyCodes [42, 30]) (.keyCode 30) (.multipleKeyCodes [42, 30]) .default 200) = [30, 42] ∧
+    repeatCandidatePinned relistWitness [42, 30] [30, 42] = some 42 ∧
+    repeatCandidate relistWitness [42, 30] [30, 42] = some 30 := by
+  refine ⟨by decide, by decide, by decide⟩
 
 /-- **repeat_completeness** (full): if the held physical key has an entry on the first layer of the
 order that has one, and any of those outputs is active, a repeat is forwarded (for one of them). -/
@@ -299,11 +371,11 @@ theorem repeat_completeness (k : KState) (cur : List KeyCode) (code l : Nat) (re
     ∃ kc, repeatTarget k cur (l :: rest) code = some kc ∧ kc ∈ outs := by
   have hc : ∃ kc, repeatCandidate k cur outs = some kc := by
     unfold repeatCandidate
-    cases hf : outs.reverse.find? (fun kc => cur.contains kc || k.unshiftedKeys.contains kc || k.unmoddedKeys.contains kc) with
+    cases hf : (repeatOrder outs).find? (fun kc => cur.contains kc || k.unshiftedKeys.contains kc || k.unmoddedKeys.contains kc) with
     | some kc => exact ⟨kc, rfl⟩
     | none =>
       rw [List.find?_eq_none] at hf
-      have := hf x (List.mem_reverse.mpr hx)
+      have := hf x ((mem_repeatOrder outs x).mpr hx)
       simp only [isActive] at ha
       rw [ha] at this
       exact absurd rfl this
